@@ -37,6 +37,18 @@ var entryBodies = []struct{ Name, Src string }{
 	{"error-string", `return String(Error("x")) + String(new TypeError("t").stack)`},
 	{"error-throw", `throw new Error("thrown")`},
 	{"throw-value", `throw {toString: function(){ return __f.caller }}`},
+	{"throw-tostring-throws", `throw {toString: function(){ throw new TypeError("t") }}`},
+	{"throw-tostring-throws-self", `var o = {toString: function(){ throw o }}; throw o`},
+	{"throw-nullproto", `throw Object.create(null)`},
+	{"throw-no-primitive", `throw {toString: function(){ return {} }, valueOf: function(){ return {} }}`},
+	{"throw-undefined", `throw undefined`},
+	{"throw-null", `throw null`},
+	{"throw-u16", `throw String.fromCharCode(0xD800, 97)`},
+	{"throw-function", `throw __f`},
+	{"throw-cyclic-array", `var a = []; a[0] = a; throw a`},
+	{"throw-error-weird-message", `var e = new Error("m"); e.message = {toString: function(){ throw 1 }}; e.name = Object.create(null); throw e`},
+	{"throw-error-stack-getter", `var e = new RangeError("m"); Object.defineProperty(e, "stack", {get: function(){ throw 2 }}); throw e`},
+	{"throw-bridged", `throw __hostReenter`},
 	{"eval-direct", `return eval("1")`},
 	{"eval-var", `eval("var q = 1"); return q`},
 	{"eval-this", `return eval("this")`},
